@@ -223,7 +223,8 @@ inductive Op where
   | define (ctx name : String) (states : List (List Var)) (events services : List String) (startup shutdown : Bool)
   | del (ctx name : String)                    -- `del name`
   | rebind (ctx dst src : String)              -- `dst = src`
-  | put (slot : Nat) (ctx name : String)       -- `container[slot] = name`
+  | put (slot : Nat) (ctx name : String)       -- `container[slot] = name` (dict, default argument, closure, class attribute)
+  | putIn (slot : Nat) (ctx name owner : String)  -- `module.container[slot] = name`: the holder belongs to context `owner`
   | drop (slot : Nat)                          -- `del container[slot]`
   | unloadCtx (ctx : String)                   -- file reload / file delete: the context's globals go away
   | unloadAll
@@ -252,9 +253,18 @@ def applyOp (sub : Sub) (w : World) : Op → World
     match lookupBind w ctx name with
     | some i => { w with slots := w.slots.filter (fun s => !(s.1 == slot)) ++ [(slot, ctx, i)] }
     | none => w
+  | .putIn slot ctx name owner =>
+    match lookupBind w ctx name with
+    | some i => { w with slots := w.slots.filter (fun s => !(s.1 == slot)) ++ [(slot, owner, i)] }
+    | none => w
   | .drop slot => { w with slots := w.slots.filter (fun s => !(s.1 == slot)) }
-  | .unloadCtx ctx => { w with binds := w.binds.filter (fun b => !(b.1 == ctx)),
-                               slots := w.slots.filter (fun s => !(s.2.1 == ctx)) }
+  | .unloadCtx ctx =>
+    -- `GlobalContext.stop()` stops every trigger function registered with the context, whether or not some other
+    -- context (a module's container, another file) still holds a reference to the function object: such references
+    -- point to a dead function from now on
+    let dead := (w.started.filter (fun g => g.ctx == ctx)).map (·.id)
+    { w with binds := w.binds.filter (fun b => !(b.1 == ctx) && !dead.contains b.2.2),
+             slots := w.slots.filter (fun s => !(s.2.1 == ctx) && !dead.contains s.2.2) }
   | .unloadAll => { w with binds := [], slots := [] }
 
 def step (cont : Bool) (sub : Sub) (w : World) (op : Op) : World := sweep cont sub (applyOp sub w op)
